@@ -7,11 +7,12 @@ from mir import short, is_place, op_local
 
 LEVEL = 'other'
 EXPLANATION = ('Decides the necessary structural clauses of C13 (answer equality across runs is a typestate over run-time data and is not '
-               'decided — a known stale-memo defect lies outside these rules, see DESIGN.md): (R13a) the remote download is reachable '
-               'through exactly one call chain, entered only when the year is not yet memoised in this run and followed by memoising the '
-               'year, so a year is downloaded at most once per run; (R13b) rates read from the cache are returned only if the cache '
+               'decided): (R13a) the remote download is reachable through exactly one call chain, entered only on paths on which the year '
+               'is not memoised or not yet downloaded in this run, and followed by memoising the year, so a year is downloaded at most once '
+               'per run; (R13b) rates read from the cache are returned only if the cache '
                'contains the requested date or the year was downloaded in this run; (R13c) the cache is not consulted when a download is '
-               'forced; (R-TS) no product code calls the test-only date override or the mock loader.')
+               'forced; (R13d) the per-run memo answers a date only if it contains it or the year was downloaded in this run; (R13e) nothing '
+               'lossy is reachable from the cache writers; (R-TS) no product code calls the test-only date override or the mock loader.')
 TRUSTED_BASE = ['rustc nightly MIR construction and trait resolution']
 ASSUMPTIONS = []
 
